@@ -381,6 +381,7 @@ func extractC13(c *ctxT) {
 	}
 	fmt.Fprintf(&sb, "/-- `if _, err = GetUnbondingDelegation(…); %s { return … }` -/\ndef unbondUbdTest : UbdTest := %s\n\n", ubdSrc, ubd)
 	c13RefreshFacts(c, &sb)
+	c13SetFacts(c, &sb)
 	c13AddFacts(c, &sb)
 	sb.WriteString("end FxVerif.Gen.C13\n")
 	c.write("C13.lean", sb.String())
